@@ -326,6 +326,18 @@ func genC09(seed, index uint64, tier string) *Plan {
 			}
 		}
 	}
+	if start <= 1 && tier != "race" && len(gst.Faults) == 0 && g.Chance(0.1) {
+		// the same race through the command line layer: `helm upgrade --install` decides between install and upgrade from
+		// a history it reads itself, before the action's own checks
+		for i := range gst.Group {
+			cli := OpSpec{Op: "cli", CLIKind: "upgrade-install", Chart: gst.Group[i].Chart, NoHooks: gst.Group[i].NoHooks, Values: gst.Group[i].Values,
+				CLI: []string{"upgrade", "rel", "@CHART@", "-n", "ns1", "-f", "@VALUES@", "--install"}}
+			if cli.NoHooks {
+				cli.CLI = append(cli.CLI, "--no-hooks")
+			}
+			gst.Group[i] = cli
+		}
+	}
 	p.Steps = append(p.Steps, gst)
 	if n == 3 || g.Chance(0.3) {
 		p.Policy = "pct"
